@@ -219,7 +219,7 @@ func c17Notes(rec *evid.Rec) {
 		"DialURI: every accepted URI and all 5x3 hand-made scheme/transport combinations are dialled through an injected transport.Net with in-memory connections: the (network, address) requested equals the one denoted; "+
 		"for secure schemes the first bytes on the wire are a TLS (tcp) / DTLS (udp) handshake record carrying the host as server name and the plaintext request sent through the returned client never appears on the wire; "+
 		"hand-made secure combinations are either ErrUnsupportedURI or wrapped. Non-trivial = IPv6 host, explicit boundary port or a query (parse); secure scheme (dial). Distinct by URI.")
-	rec.Note("assumptions", []string{"the DTLS path resolves the host with the system resolver (localhost and IP literals resolve offline)", "server-name checks apply to reg-name hosts (TLS/DTLS omit SNI for IP literals)"})
+	rec.Note("assumptions", []string{"host names are resolved by the injected network (the fake resolves IP literals, localhost and maps every other name to 192.0.2.53)", "server-name checks apply to reg-name hosts (TLS/DTLS omit SNI for IP literals)"})
 }
 
 func TestC17_ParseProduct(t *testing.T) {
@@ -403,6 +403,37 @@ func (f *fakeNet) DialUDP(network string, _, raddr *net.UDPAddr) (transport.UDPC
 	return c, nil
 }
 
+// ResolveUDPAddr is the injected network's resolver: IP literals and "localhost" as usual, every other
+// name resolves to 192.0.2.53 - names only the injected network knows (nothing else resolves offline).
+func (f *fakeNet) ResolveUDPAddr(_, address string) (*net.UDPAddr, error) {
+	return fakeResolve(address)
+}
+
+func fakeResolve(address string) (*net.UDPAddr, error) {
+	host, port, err := net.SplitHostPort(address)
+	if err != nil {
+		return nil, err
+	}
+	p, err := strconv.Atoi(port)
+	if err != nil {
+		return nil, err
+	}
+	zone := ""
+	if i := strings.IndexByte(host, '%'); i >= 0 {
+		host, zone = host[:i], host[i+1:]
+	}
+	ip := net.ParseIP(host)
+	switch {
+	case ip != nil:
+	case host == "localhost":
+		ip = net.IPv4(127, 0, 0, 1)
+	default:
+		ip = net.IPv4(192, 0, 2, 53)
+	}
+
+	return &net.UDPAddr{IP: ip, Port: p, Zone: zone}, nil
+}
+
 type c17Dial struct {
 	Scheme int    `json:"scheme"`
 	Proto  int    `json:"proto"`
@@ -498,7 +529,8 @@ func runC17Dial(c c17Dial) error {
 			if !strings.HasPrefix(got, "dialudp:udp ") || wire[1] != 0xFE {
 				return fmt.Errorf("DialURI(%v) over UDP: requested %q, record version %x (want DTLS over UDP)", u, got, wire[1:3])
 			}
-			ra, rerr := net.ResolveUDPAddr("udp", addr)
+			// the address the INJECTED network resolves the host to
+			ra, rerr := fakeResolve(addr)
 			if rerr == nil && got != "dialudp:udp "+ra.String() {
 				return fmt.Errorf("DialURI(%v) dialled %q, the URI denotes %q", u, got, ra.String())
 			}
@@ -536,10 +568,8 @@ func TestC17_Dial(t *testing.T) {
 		for _, q := range []string{"", "?transport=udp", "?transport=tcp"} {
 			hs := append([]string(nil), hosts...)
 			for _, port := range []string{"", ":0", ":3478", ":65535"} {
-				all := hs
-				if !(sc == "turns" && q == "?transport=udp") {
-					all = append(append([]string(nil), hs...), regNames...) // the DTLS path needs resolvable hosts
-				}
+				// reg-names too on every path: with an injected network it is that network which resolves them
+				all := append(append([]string(nil), hs...), regNames...)
 				for _, h := range all {
 					hw := h
 					if strings.Contains(h, ":") {
@@ -560,9 +590,6 @@ func TestC17_Dial(t *testing.T) {
 	for sc := 0; sc <= 4; sc++ {
 		for pr := 0; pr <= 2; pr++ {
 			for _, h := range []string{"localhost", "127.0.0.1", "example.org"} {
-				if h == "example.org" && sc == int(stun.SchemeTypeTURNS) && pr == int(stun.ProtoTypeUDP) {
-					continue
-				}
 				if !run(c17Dial{Scheme: sc, Proto: pr, Host: h, Port: 5349}) {
 					return
 				}
